@@ -63,6 +63,7 @@ type candidate struct {
 	desc  string
 	q     Ineq
 	alive bool
+	build func() (Ineq, bool) // recomputes q under the current exactness assumptions
 }
 
 var (
